@@ -10,10 +10,12 @@ declare -A OWNERS=(
   [C01]="C08" [C02]="C02" [C03]="C03" [C04]="C04" [C05]="C05" [C06]="C06 C12" [C07]="C07" [C08]="C08" [C09]="C09" [C10]="C10"
   [C11]="C11 C08" [C12]="C12" [C13]="C13" [C14]="C14" [C15]="C15" [C16]="C16" [C17]="C17" [C18]="C18" [C19]="C19" [C20]="C20"
   [C01c]="C01" [C03c]="C03" [C07c]="C07" [C08c]="C08" [C13c]="C13" [C15c]="C14" [C17c]="C17" [C19c]="C19"
+  [C01d]="C01" [C02d]="C02" [C03d]="C03" [C05c]="C05" [C07d]="C07" [C09d]="C09" [C10d]="C10" [C11b]="C11" [C16b]="C16" [C18c]="C18"
+  [C04c]="C04" [C06c]="C06" [C08d]="C08" [C12c]="C12" [C13d]="C13" [C14c]="C14" [C15d]="C15" [C17d]="C17" [C19d]="C19" [C20c]="C20"
   [C02b]="C02" [C04b]="C04" [C05b]="C05" [C06b]="C06" [C09b]="C09" [C10b]="C10" [C12b]="C12" [C14b]="C14" [C18b]="C18" [C20b]="C20"
 )
 ids=("$@")
-[ ${#ids[@]} -eq 0 ] && ids=($(ls seeded | grep '^C[0-9][0-9][bc]\?$'))
+[ ${#ids[@]} -eq 0 ] && ids=($(ls seeded | grep '^C[0-9][0-9][bcd]\?$'))
 head=$(git -C /repo log --format=%h -1)
 for id in "${ids[@]}"; do
   wt=/var/tmp/seedwt/$id
